@@ -57,7 +57,8 @@ groups = {
  'C07': STREAM + ['execLiterals', 'noticeDumpCalls', 'prepareForReplicationSrc', 'startDumpSrc', 'newSlaveConnectionSrc', 'streamBody',
          'SetBinlogPositionSrc', 'binlogPositionSrc'],
  'C08': ['conn_readBinlogEventSrc', 'printTimestampSrc', 'zeroTimestampInit', 'closure_begin', 'closure_commit', 'cellBytesCases']
-        + [k for k in defs if k.startswith('cellBytesBody')] + ROWCONV,   # Mem model: which bodies hand out sub-slices / constants
+        + [k for k in defs if k.startswith('cellBytesBody')] + ROWCONV + STREAM
+        + ['marshalTransactionSrc', 'marshalStreamEventSrc', 'marshalColumnDataSrc', 'newTransactionSrc', 'newStreamEventSrc', 'newRowDataSrc', 'newColumnDataSrc'],   # Mem model: which bodies hand out sub-slices / constants; every reader / writer of a delivered transaction
  'C09': ['fnRowsSrc', 'cellLengthFixed', 'cellLengthOther', 'cellBytesCases', 'newBitmapSrc', 'bitmapBitSrc', 'bitmapBitCountSrc',
          'bitmapCountSrc', 'readLenEncIntSrc', 'dig2bytes', 'formatHeaderSizeSrc'] + [k for k in defs if k.startswith('cellBytesBody')]
         + ['getValuesFromRowSrc', 'getIdentifiesFromRowSrc'] + TYPES,
@@ -87,6 +88,8 @@ for _l in open(os.path.join(root, 'properties.jsonl')):
     _files = list(_d['anchors'].get('files', []))
     if 'parseEventsSrc' in groups[_d['id']] and 'streamer.go' not in _files:
         _files.append('streamer.go')
+    if _d['id'] == 'C08' and 'transaction.go' not in _files:
+        _files.append('transaction.go')   # the delivered objects and their exported readers (seeded changes C08h, C08j)
     groups[_d['id']] = groups[_d['id']] + ['goFiles'] + sum((['inv_' + _fid(f), 'fileDigest_' + _fid(f)] for f in _files), [])
 outdir = os.path.join(root, 'lean/GV/Expect')
 os.makedirs(outdir, exist_ok=True)
